@@ -17,7 +17,7 @@ func ODT(r *sim.Rand) *Package {
 	p := &Package{}
 	p.Members = append(p.Members, Member{Name: "mimetype", Data: []byte("application/vnd.oasis.opendocument.text"), Store: true})
 	var b strings.Builder
-	b.WriteString(`<?xml version="1.0" encoding="UTF-8"?>` + "\n" + `<office:document-content ` + odfNS + ` office:version="1.2"><office:automatic-styles><style:style style:name="P1" style:family="paragraph" style:parent-style-name="Standard"><style:text-properties fo:font-weight="bold"/></style:style><style:style style:name="T1" style:family="text"><style:text-properties fo:font-style="italic"/></style:style></office:automatic-styles><office:body><office:text>`)
+	b.WriteString(`<?xml version="1.0" encoding="UTF-8"?>` + "\n" + `<office:document-content ` + odfNS + ` office:version="1.2"><office:automatic-styles><style:style style:name="P1" style:family="paragraph" style:parent-style-name="Standard"><style:text-properties fo:font-weight="bold"/></style:style><style:style style:name="T1" style:family="text"><style:text-properties fo:font-style="italic"/></style:style>` + odtListStyle(r) + `</office:automatic-styles><office:body><office:text>`)
 	inline := func() string {
 		var s strings.Builder
 		for i, n := 0, 1+r.Intn(3); i < n; i++ {
@@ -89,6 +89,24 @@ func ODT(r *sim.Rand) *Package {
 	p.Add("meta.xml", `<?xml version="1.0" encoding="UTF-8"?>`+"\n"+`<office:document-meta `+odfNS+` office:version="1.2"><office:meta><dc:title>`+xmlEsc(phrase(r, 2))+`</dc:title><dc:creator>officew</dc:creator><meta:creation-date>2024-01-02T03:04:05</meta:creation-date></office:meta></office:document-meta>`)
 	p.Add("META-INF/manifest.xml", `<?xml version="1.0" encoding="UTF-8"?>`+"\n"+`<manifest:manifest xmlns:manifest="urn:oasis:names:tc:opendocument:xmlns:manifest:1.0" manifest:version="1.2"><manifest:file-entry manifest:full-path="/" manifest:media-type="application/vnd.oasis.opendocument.text"/><manifest:file-entry manifest:full-path="content.xml" manifest:media-type="text/xml"/><manifest:file-entry manifest:full-path="styles.xml" manifest:media-type="text/xml"/><manifest:file-entry manifest:full-path="meta.xml" manifest:media-type="text/xml"/></manifest:manifest>`)
 	return p
+}
+
+// odtListStyle defines the list style the lists refer to: three levels, numbered
+// (decimal, alphabetic or roman, with a start value) or bulleted.
+func odtListStyle(r *sim.Rand) string {
+	var b strings.Builder
+	b.WriteString(`<text:list-style style:name="L1">`)
+	for lvl := 1; lvl <= 3; lvl++ {
+		if r.Pct(30) {
+			fmt.Fprintf(&b, `<text:list-level-style-bullet text:level="%d" text:bullet-char="%s"><style:list-level-properties text:space-before="%dcm"/></text:list-level-style-bullet>`,
+				lvl, sim.Pick(r, []string{"\u2022", "-", "\u25e6"}), lvl)
+			continue
+		}
+		fmt.Fprintf(&b, `<text:list-level-style-number text:level="%d" style:num-format="%s" style:num-suffix="." text:start-value="%d" text:display-levels="%d"><style:list-level-properties text:space-before="%dcm"/></text:list-level-style-number>`,
+			lvl, sim.Pick(r, []string{"1", "a", "A", "i", "I", "I", "i"}), 1+r.Intn(12), 1+r.Intn(lvl), lvl)
+	}
+	b.WriteString(`</text:list-style>`)
+	return b.String()
 }
 
 // ---------------------------------------------------------------------------
